@@ -380,6 +380,7 @@ class Interp:
         self._busy: set = set()
         self._ctor: Dict[str, Callable] = {}
         self._handling: List[ProgramError] = []
+        self._yields: List[List[Any]] = []
         self._mod_scopes: Dict[str, Scope] = {}
 
     # ------------------------------------------------------------------------------------------ public helpers
@@ -388,7 +389,12 @@ class Interp:
         self._ctor[cls] = fn
 
     def instance(self, cls: str, attrs: Optional[Dict[str, Any]] = None, over: Optional[Dict[str, Any]] = None, module: Optional[str] = None) -> Instance:
-        """A receiver stub: `attrs` are plain attribute values, `over` replaces members (values for properties, callables for methods)."""
+        """A receiver stub: `attrs` are plain attribute values, `over` replaces members (values for properties, callables for methods).
+        Every replaced member must exist in the class: a stub for a member the code does not have would silently not be used and
+        the receiver would be inconsistent - that is 'anchor not found' (NotEvaluable), never a verdict."""
+        for name in over or {}:
+            if self._find_member(module or self.module, cls, name) is None:
+                raise NotEvaluable(f"anchor {cls}.{name} not found (a rule-supplied stand-in for it would not be used)")
         return Instance(self, module or self.module, cls, attrs, over)
 
     def class_ref(self, cls: str, module: Optional[str] = None) -> ClassRef:
@@ -777,8 +783,21 @@ class Interp:
         self.cov.add(id(node))
         if isinstance(node, ast.Lambda):
             return self.ev(node.body, sc, clo.module)
-        if any(isinstance(n, (ast.Yield, ast.YieldFrom, ast.Await)) for n in _walk_own(node)):
-            raise NotEvaluable(f"{clo.name} is a generator/coroutine")
+        own = list(_walk_own(node))
+        if any(isinstance(n, ast.Await) for n in own):
+            raise NotEvaluable(f"{clo.name} is a coroutine")
+        if any(isinstance(n, (ast.Yield, ast.YieldFrom)) for n in own):
+            # a generator function is run to its end at the call and its values handed out afterwards: the same sequence for a
+            # generator without side effects between its yields (laziness itself is not modelled)
+            self._yields.append([])
+            try:
+                try:
+                    self.exec_block(node.body, sc, clo.module)
+                except _Ret:
+                    pass
+                return iter(self._yields[-1])
+            finally:
+                self._yields.pop()
         try:
             self.exec_block(node.body, sc, clo.module)
         except _Ret as r:
@@ -1190,6 +1209,25 @@ class Interp:
             raise NotEvaluable("walrus target")
         sc.store(n.target.id, v)
         return v
+
+    def _e_Yield(self, n, sc, module):
+        if not self._yields:
+            raise NotEvaluable("yield outside a generator function")
+        self._yields[-1].append(self.ev(n.value, sc, module) if n.value is not None else None)
+        if len(self._yields[-1]) > 100000:
+            raise StepLimit("a generator yields without end")
+        return None
+
+    def _e_YieldFrom(self, n, sc, module):
+        if not self._yields:
+            raise NotEvaluable("yield from outside a generator function")
+        it = self._iter(self.ev(n.value, sc, module), n)
+        while True:
+            self._tick()
+            ok, x = self._next(it, n)
+            if not ok:
+                return None
+            self._yields[-1].append(x)
 
     def _e_Starred(self, n, sc, module):
         raise NotEvaluable("starred expression outside a call/display")
